@@ -1,0 +1,15 @@
+//go:build verif
+
+package sshsb
+
+import (
+	"io"
+
+	"github.com/goatcms/goatcore/app/modules/commonm/commservices"
+)
+
+// VerifInitSequence exposes the private start-up script builder of the SSH sandbox
+// ((*SSHSandbox).initSequence) to the verification harness.  Compiled only with -tags verif.
+func VerifInitSequence(entrypoint string, envs commservices.Environments) (io.Reader, error) {
+	return (&SSHSandbox{entrypoint: entrypoint}).initSequence(envs)
+}
